@@ -558,10 +558,11 @@ impl<T: CanonicalDeserialize> CanonicalDeserialize for Vec<T> {
         compress: Compress,
         validate: Validate,
     ) -> Result<Self, SerializationError> {
-        let len = u64::deserialize_with_mode(&mut reader, compress, validate)?
+        let len: usize = u64::deserialize_with_mode(&mut reader, compress, validate)?
             .try_into()
             .map_err(|_| SerializationError::NotEnoughSpace)?;
-        let mut values = Self::with_capacity(len);
+        // `len` comes from the input: do not pre-allocate from it, grow as elements are actually read.
+        let mut values = Self::new();
         for _ in 0..len {
             values.push(T::deserialize_with_mode(
                 &mut reader,
@@ -655,10 +656,11 @@ impl<T: CanonicalDeserialize> CanonicalDeserialize for VecDeque<T> {
         compress: Compress,
         validate: Validate,
     ) -> Result<Self, SerializationError> {
-        let len = u64::deserialize_with_mode(&mut reader, compress, validate)?
+        let len: usize = u64::deserialize_with_mode(&mut reader, compress, validate)?
             .try_into()
             .map_err(|_| SerializationError::NotEnoughSpace)?;
-        let mut values = Self::with_capacity(len);
+        // `len` comes from the input: do not pre-allocate from it, grow as elements are actually read.
+        let mut values = Self::new();
         for _ in 0..len {
             values.push_back(T::deserialize_with_mode(
                 &mut reader,
